@@ -34,7 +34,7 @@ def flag(d):
 
 
 def proj_values(d):      # C04: what is delivered (values, kinds, order), not the contexts
-    return (flag(d), strip_ctx(d.get('trace')))
+    return (flag(d), strip_ctx(d.get('trace')), d.get('alias'))
 
 
 def proj_grammar(d):     # C01: shape of the delivered trace and of the refused notifications
